@@ -328,6 +328,10 @@ func genPairs(seed uint64, n, max int, emit func(interface{})) {
 			emit(genLongDups(r, fmt.Sprintf("pl-%d-%d", seed, i)))
 			continue
 		}
+		if i%10 == 6 {
+			emit(genLoss15(r, fmt.Sprintf("pf-%d-%d", seed, i)))
+			continue
+		}
 		sc := genStreamScenario(r, fmt.Sprintf("pr-%d-%d", seed, i), r.rangeInt(2, 6), max)
 		sc.Kind = "pair"
 		mode := r.intn(3) // 0 dups only, 1 drops only, 2 both
@@ -365,6 +369,42 @@ func genPairs(seed uint64, n, max int, emit func(interface{})) {
 		sc.Pkts = out
 		emit(sc)
 	}
+}
+
+// genLoss15: exactly 15 packets in a row are lost inside a long elementary-stream unit (or across two units): the packet after the gap
+// carries the counter of the last packet before it - still "fewer than 16", and not a duplicate (its payload differs)
+func genLoss15(r *rng, sid string) streamScenario {
+	var sc streamScenario
+	for try := 0; try < 80; try++ {
+		sc = genStreamScenario(r, sid, 2, 14)
+		cnt := map[int]int{}
+		for _, p := range sc.Pkts {
+			if p.K == "" {
+				cnt[p.PID]++
+			}
+		}
+		best := -1
+		for pid, c := range cnt {
+			if pid >= 0x100 && pid != 0x1000 && pid != 0x1001 && c >= 22 {
+				best = pid
+			}
+		}
+		if best < 0 {
+			continue
+		}
+		start, k := r.rangeInt(1, cnt[best]-18), 0
+		for i := range sc.Pkts {
+			if sc.Pkts[i].K == "" && sc.Pkts[i].PID == best {
+				if k >= start && k < start+15 {
+					sc.Pkts[i].F = "drop"
+				}
+				k++
+			}
+		}
+		break
+	}
+	sc.Kind = "pair"
+	return sc
 }
 
 // genLongDups: one long elementary stream (the continuity counter wraps several times) with two or three legal duplicates whose
